@@ -15,7 +15,7 @@ RULE = ("(a) in-memory reader: call sets of 2-5 samples x sample lists (subset, 
         "builder; (b) on the binary: column permutations and label-order-preserving list reorderings print identical "
         "bytes; reordering labels permutes the axes (checked by transposing the parsed spectrum); -s vs -S file with the "
         "same content print identical bytes; unknown sample / empty list exit non-zero with empty stdout. non-trivial = "
-        "list with >= 2 labels; a listed non-diploid genotype after a listed missing / multiallelic one in every column order is an error; samples files mixing a tab followed by nothing (the population '') with lines without a tab (unnamed)")
+        "list with >= 2 labels; a listed non-diploid genotype after a listed missing / multiallelic one in every column order is an error; samples files mixing a tab followed by nothing (the population '') with lines without a tab (unnamed); labels spelled like the unnamed population ('[unnamed]', 'unnamed', '-') next to samples without a label")
 
 
 def transpose_flat(shape, vals, perm):
@@ -217,6 +217,26 @@ def check(rep, tier, seed):
                          observed={"rc": rc, "stdout": so.decode(errors="replace")[:200], "stderr": se.decode(errors="replace")[-200:]}, expected=exp,
                          detail="labels / names with unusual characters: the %s list does not give the spectrum of the abstract list" % which)
         os.remove(path)
+    # a label that is SPELLED like what the tool prints for the samples without a label ("[unnamed]"), or like other words for
+    # nothing, names a population of its own: next to samples without a label there are two populations, in either order
+    for k, lab in enumerate(["[unnamed]", "unnamed", "-", "None", "[unnamed] ", "Unnamed", "null"]):
+        cols = ["s0", "s1", "s2", "s3"]
+        recs = [[rng.choice(["0/0", "0/1", "1/1"]) for _ in cols] for _ in range(7)]
+        for sm, mm in (([("s0", lab), ("s1", None), ("s2", lab), ("s3", None)], "a:L1,b:-,c:L1,d:-"), ([("s1", None), ("s0", lab), ("s3", None)], "b:-,a:L1,d:-")):
+            vcf = render_vcf(cols, recs)
+            path = os.path.join(WORK, "c09_unn_%d.txt" % k)
+            open(path, "wb").write(samples_file_bytes(sm))
+            rr = run_cli_many([(["create"] + cli_samples_arg(sm), vcf), (["create", "-S", path], vcf)])
+            e = run_model(["create 0 a,b,c,d %s - %s" % (mm, model_records(recs))])[0].split()
+            rep.count("odd-names", "label %r next to samples without a label" % lab, True, n=2)
+            for which, (rc, so, se) in zip(("inline", "file"), rr):
+                p0 = parse_text_spectrum(so)
+                if rc != 0 or p0 is None or p0[0] != [int(x) for x in e[1].split(",")] or p0[1] != e[2].split(","):
+                    rep.fail(kind="property-oracle", cls="axes:odd-names:" + which, case="label %r next to samples without a label (%s list)" % (lab, which),
+                             argv=["sfs", "create"] + (cli_samples_arg(sm) if which == "inline" else ["-S", path]), stdin=vcf.decode(),
+                             observed={"rc": rc, "stdout": so.decode(errors="replace")[:200], "stderr": se.decode(errors="replace")[-200:]}, expected=" ".join(e)[:300],
+                             detail="a population labelled %r is a population of its own, distinct from the samples that carry no label" % lab)
+            os.remove(path)
     # errors on the binary
     ejobs = [(["create", "-s", "nosuch"], render_vcf(["a", "b"], [["0/1", "0/0"]])),
              (["create", "-s", "a=A,zzz=B"], render_vcf(["a", "b"], [["0/1", "0/0"]])),
